@@ -147,7 +147,7 @@ func cmdRun(args []string) int {
 			continue
 		}
 		cfg := symgo.Config{Harness: qualify(hr.Name), Params: withSeed(hr.Params, seed), Workers: 16, MaxPaths: hr.MaxPaths, Fuel: hr.Fuel,
-			CrossCheck: cross, KeepSamples: 6}
+			CrossCheck: cross, KeepSamples: 6, TimeoutMs: map[bool]int{false: 30000, true: 120000}[*tier == "thorough"]}
 		rep, err := symgo.Explore(P, cfg)
 		if err != nil {
 			fmt.Printf("INCONCLUSIVE property=%s harness=%s: %v\n", spec.ID, hr.Name, err)
